@@ -68,6 +68,8 @@ class Res:
         self.counters = Counter()
         self.states = set()
         self.transitions = set()
+        self.kcount = 0  # distinct non-trivial cases that are distinct by construction (counted, not stored)
+        self.tcount = 0  # transitions distinct by construction, counted instead of stored
         self.traces = 0
         self.notes = []
 
@@ -120,6 +122,8 @@ class Res:
         self.counters.update(other.counters)
         self.states |= other.states
         self.transitions |= other.transitions
+        self.tcount += other.tcount
+        self.kcount += other.kcount
         self.traces += other.traces
         self.notes.extend(n for n in other.notes if n not in self.notes)
 
